@@ -55,7 +55,9 @@ class GammaPriorConcentrationSampler(object):
 
             new_value = gamma.rvs(shape, scale=(1 / rate), random_state=self._rng)
 
-        # Catch numerical error: a gamma draw with a small shape can underflow to exactly 0.0 (in both branches)
-        new_value = max(new_value, 1e-10)
+        # Catch numerical error only: a gamma draw with a small shape can underflow to exactly 0.0 (in both branches).
+        # The floor must stay far below every value the mixture produces with noticeable probability: with the run
+        # command's Gamma(0.01, 0.01) prior and one clone most of the mass lies below 1e-10
+        new_value = max(new_value, np.finfo(float).tiny)
 
         return new_value
